@@ -58,7 +58,7 @@ PER_UNIT = 15
 def units(tier, seed):
     return [{'k': 'gen', 'i': i, 'n': PER_UNIT} for i in range(N[tier] // PER_UNIT)] + \
         [{'k': 'multi', 'i': i, 'n': 6} for i in range(4 if tier == 'quick' else 100)] + \
-        [{'k': 'adopt'}, {'k': 'createfault'}, {'k': 'dangling'}]
+        [{'k': 'adopt'}, {'k': 'createfault'}, {'k': 'dangling'}, {'k': 'signfail'}]
 
 
 def setup_worker(ctx):
@@ -833,6 +833,85 @@ def run_dangling(u, ctx):
                                     'scope': scope})
 
 
+def exec_signfail(ctx, case):
+    """A signed tree whose update cannot be signed (unknown key id, no secret key):
+    the command fails - and the top-level Manifest still carries its DIST / IGNORE /
+    TIMESTAMP lines afterwards."""
+    from gemato import cli as gcli
+    from vf.checks import c19
+    from vf.fixtures import keys
+    with common.Scratch('vf-c10g-') as d:
+        root = os.path.join(d, 't')
+        os.makedirs(os.path.join(root, 'sub'))
+        os.makedirs(os.path.join(root, 'local'))
+        for pth, data in (('a', b'1'), ('sub/b', b'22'), ('local/x', b'333')):
+            with open(os.path.join(root, pth), 'wb') as f:
+                f.write(data)
+        with open(os.path.join(root, 'Manifest'), 'w') as f:
+            f.write(mtext.render([
+                {'tag': 'IGNORE', 'path': 'local'},
+                {'tag': 'DIST', 'path': 'd.tar', 'size': 1, 'sums': {'MD5': 'ab' * 16}},
+                {'tag': 'TIMESTAMP', 'ts': '2019-03-04T10:00:00Z'}]))
+        old_home = os.environ.get('GNUPGHOME')
+        os.environ['GNUPGHOME'] = c19.sign_home().dir
+        try:
+            rc = gcli.main(['gemato', 'update', '--hashes', 'SHA256', '-s', '-k',
+                            keys.KEY_ID, root])
+            if rc != 0:
+                ctx.count('harness_error')
+                return
+            mans0 = manifest_state(root)
+            keep0 = lines_of(mans0, 'DIST') + lines_of(mans0, 'IGNORE') + \
+                lines_of(mans0, 'TIMESTAMP')
+            with open(os.path.join(root, 'sub', 'new'), 'w') as f:
+                f.write('new file')
+            ctx.case(sig=('signfail', case['how'], case['api']), case=case,
+                     klass='signfail')
+            ctx.count('signfail_cases')
+            argv = ['gemato', 'update', '--hashes', 'SHA256']
+            if case['how'] == 'wrong-key':
+                argv += ['-k', '0xDEADBEEFDEADBEEF']
+            else:
+                # no secret key at all in this home
+                empty = os.path.join(d, 'emptyhome')
+                os.makedirs(empty, mode=0o700)
+                os.environ['GNUPGHOME'] = empty
+                argv += ['-s']
+            if case['api'] == 'cli-force':
+                argv.append('-f')
+            try:
+                rc = gcli.main(argv + (['--no-openpgp-verify']
+                                       if case['how'] != 'wrong-key' else []) + [root])
+            except SystemExit:
+                rc = 'exit'
+            except Exception as exc:
+                rc = exc
+        finally:
+            if old_home is None:
+                os.environ.pop('GNUPGHOME', None)
+            else:
+                os.environ['GNUPGHOME'] = old_home
+        if rc == 0:
+            ctx.count('signfail_update_succeeded')
+            return
+        mans1 = manifest_state(root)
+        keep1 = lines_of(mans1, 'DIST') + lines_of(mans1, 'IGNORE') + \
+            lines_of(mans1, 'TIMESTAMP')
+        lost = keep0 - keep1
+        if lost:
+            ctx.violation('failed-signing-lost-lines', 'update failed (%r) because the '
+                          'top-level Manifest could not be signed, and afterwards it '
+                          'lacks %r (file size now %d)' % (
+                              rc, sorted(lost)[:3],
+                              os.path.getsize(os.path.join(root, 'Manifest'))), case)
+
+
+def run_signfail(u, ctx):
+    for how in ('wrong-key', 'no-secret-key'):
+        for api in ('cli', 'cli-force'):
+            exec_signfail(ctx, {'kind': 'signfail', 'how': how, 'api': api})
+
+
 def run_adopt(u, ctx):
     n = 0
     for listed in ('manifest', 'data', 'misc', 'none'):
@@ -853,6 +932,8 @@ def run_unit(u, ctx):
         return run_createfault(u, ctx)
     if u.get('k') == 'dangling':
         return run_dangling(u, ctx)
+    if u.get('k') == 'signfail':
+        return run_signfail(u, ctx)
     if u.get('k') == 'multi':
         for j in range(u['n']):
             run_multi(ctx, common.rng_for(ctx.seed, ID, 'multi', u['i'], j),
@@ -928,6 +1009,8 @@ def replay(case, ctx):
         return exec_createfault(ctx, case)
     if case.get('kind') == 'dangling':
         return exec_dangling(ctx, case)
+    if case.get('kind') == 'signfail':
+        return exec_signfail(ctx, case)
     if case.get('kind') == 'multi':
         ctx.seed = case.get('gen_seed', ctx.seed)
         run_multi(ctx, common.rng_for(ctx.seed, ID, 'multi', case['idx'] // 100,
